@@ -456,15 +456,23 @@ def unmodelled_mutable_uses(fn, rs, root, after=None, modelled=()):
     if after is not None and cfg is not None and cfg.block_of(after["i"]) is not None:
         b0, pos = cfg.block_of(after["i"])
         reach = set(cfg.reachable(b0))
-    for n in fn.nodes():
+    for n in own_nodes(fn):
         if not is_call(n) or n is after or n.get("callee") in MOVE_FNS or n.get("callee") == "FEAT::assertion":
             continue
         nm = callee_name(n)
-        if nm in modelled:
+        lam = lambda_body_of(rs, n)
+        if nm in modelled and lam is None:
             continue
         if reach is not None:
             w = cfg.block_of(n.get("i")) if "i" in n else None
             if w is None or w[0] not in reach or (w[0] == b0 and w[1] <= pos and not _in_cycle(cfg, b0)):
+                continue
+        if lam is not None:
+            # calling a local closure: it may modify what its body touches (its body is not followed here)
+            if any(p_.startswith(root) for p_ in lambda_touched_paths(rs, fn, lam)):
+                out.append(n)
+                continue
+            if nm in modelled:
                 continue
         hit = False
         recv = receiver(n)
@@ -484,3 +492,48 @@ def unmodelled_mutable_uses(fn, rs, root, after=None, modelled=()):
 
 def _in_cycle(cfg, b):
     return any(b in cfg.reachable(s) for s in cfg.succ.get(b, []))
+
+
+# -------------------------------------------------------------------------------------------------------------
+# lambdas: the body of a lambda is not executed where it is written; calling the closure may modify whatever the body touches
+# -------------------------------------------------------------------------------------------------------------
+
+def own_nodes(fn):
+    """nodes of the function itself: lambda bodies are not descended into (the Lambda node is yielded)"""
+    prune = lambda x: x.get("k") == "Lambda"
+    for i in fn.d.get("inits", []) or []:
+        yield from walk(i.get("init"), prune)
+    yield from walk(fn.body, prune)
+
+
+def own_walk(n):
+    """walk below n without descending into lambda bodies"""
+    return walk(n, lambda x: x.get("k") == "Lambda")
+
+
+def lambda_body_of(rs, n):
+    """body of the local lambda a call node invokes (`auto f = [&]{...}; f();`), else None"""
+    if n.get("k") == "OpCall" and n.get("op") == "()" and n.get("a") and n["a"][0].get("k") == "Ref" and n["a"][0].get("dk") == "local":
+        v = rs.var(n["a"][0].get("d"))
+        ini = v.get("init") if v is not None else None
+        if ini is not None and ini.get("k") == "Lambda":
+            return ini.get("body")
+    return None
+
+
+def lambda_touched_paths(rs, fn, body):
+    """access paths of the objects a lambda body may modify: receivers of non-const member calls, assignment targets, non-const reference arguments"""
+    out = []
+    for m in walk(body):
+        if m.get("k") == "Assign":
+            out.append(rs.path(m["lhs"]))
+        elif m.get("k") == "Un" and m.get("op") in ("++", "--"):
+            out.append(rs.path(m["e"]))
+        elif is_call(m) and m.get("callee") not in MOVE_FNS:
+            recv = receiver(m)
+            if recv is not None and not m.get("cconst"):
+                out.append(rs.path(recv))
+            for a, pn_, pt_ in call_args_with_params(m, fn):
+                if a is not recv and pt_ is not None and is_nonconst_ref(pt_):
+                    out.append(rs.path(a))
+    return [p_ for p_ in out if not p_.opaque()]
